@@ -4,10 +4,15 @@ Real hailtop.utils.utils.bounded_gather2_raise_exceptions / bounded_gather2_retu
 bounded_gather2), bounded_gather, OnlineBoundedGather2 and WithoutSemaphore on the virtual loop.
 
 A configuration is (mode, parallelism P, partial functions, caller cancelled?).  Each partial function
-yields k times and then returns its index, raises its own exception, or raises CancelledError.  The
-explorer runs every order of task steps; asyncio's own callbacks keep their FIFO order (as in real
-asyncio).  With "caller cancelled" a controller task is runnable from the start, so Task.cancel() of the
-caller lands at every step boundary (before the call, while the helper waits, while it cleans up, after).
+yields k times (each yield = an external event) and then returns its index, raises an Exception, raises a
+non-Exception BaseException, raises CancelledError, awaits an inner future that a side task cancels, or -- once
+cancelled -- takes 1-2 further yields to stop (re-raising or swallowing the cancellation).  With "caller
+cancelled" a controller cancels the caller at a moment of the environment's choosing (before the call, while
+the helper waits, while it cleans up, after).
+Scheduling model (only schedules real asyncio can produce): the ready queue is strictly FIFO, so a freshly
+created task takes its first step in creation order; every yield of a harness body, every arrival and the
+cancellation are external events which the environment completes in any order, appending the completion at
+the end of the ready queue (timers due at one instant fire in any order too).  All such orders are explored.
 
 Calling conventions.  bounded_gather2*/OnlineBoundedGather2 are called the way the repo calls them: by a
 caller that holds one permit of the semaphore (they lend it out through WithoutSemaphore while waiting).
